@@ -3,14 +3,16 @@
      coq/ArgCheckGen.v   the argument tests of p?gssv, ?gstrs, ?gsrfs, ?gscon, ?gsequ, sp_?trsv, sp_?gemv (4 precisions each)
      coq/PivotGen.v      the pivot search and pivot policy of p?gstrf_pivotL (4 precisions)
      coq/UstackGen.v     the two-ended user stack of p?memory.c: ?user_malloc, ?user_free (4 precisions)
-     coq/AllocGen.v      the bump allocators of the factor storage in pmemory.c: Glu_alloc, DynamicSetMap (one file for all precisions)
+     coq/SchedGen.v      the panel scheduler pxgstrf_scheduler (one source file for all precisions)
    The tie theorems (generated definition = hand-written model) live in the hand-written coq/*Tie.v files.
    A piece that cannot be translated is left out of the generated file with the reason in a comment: its tie theorem then
    fails to compile, which the checks report as a broken obligation."""
+# NOTE: this file is the scheduler part of the translator driver, kept separate because it was developed against its own extension of
+# tools/c2gal.py (tools/c2gal_sched.py: while loops with fuel, shared-memory paths, list cells); tools/gen_trans.py calls gen_sched().
 import sys, os
 sys.path.insert(0, os.path.dirname(os.path.abspath(__file__)))
-import c2gal
-from c2gal import Unsupported, strip, mentions
+import c2gal_sched as c2gal
+from c2gal_sched import Unsupported, strip, mentions
 
 REPO = sys.argv[1] if len(sys.argv) > 1 else "/repo"
 COQ = sys.argv[2] if len(sys.argv) > 2 else os.path.join(os.path.dirname(os.path.dirname(os.path.abspath(__file__))), "coq")
@@ -317,104 +319,90 @@ def gen_ustack():
 
 
 # ---------------------------------------------------------------------------------------------------
-# the bump allocators of the factor storage: Glu_alloc, DynamicSetMap (pmemory.c, one file for all precisions)
-ALLOC_CELLS = ["nextlu", "nextu", "nextl", "nzlumax", "nzumax", "nzlmax"]   # int_t fields of *pxgstrf_shared->Glu: inputs and outputs
-ALLOC_MAP = "map_in_sup"                                                    # int_t *map_in_sup: a mutable array (Z -> Z), input and output
-ALLOC_GUARDS = {"nextu": "ULOCK", "nextl": "LLOCK", "nextlu": "LULOCK"}     # next-pointer -> index of ITS lock in pxgstrf_shared->lu_locks[]
-ALLOC_MEMTYPES = ["LUSUP", "UCOL", "LSUB", "USUB"]
-ALLOC_IGNORE = {"fprintf", "printf", "sprintf", "fflush"}                   # the XPAND_HINT / SUPERLU_ABORT messages
-ALLOC_ABORT = {"superlu_abort_and_exit", "exit", "abort"}                   # never return
-ALLOC_INT = ("int", "long", "long long", "const int", "const long", "const long long", "int_t", "const int_t", "MemType", "const MemType")
+# the panel scheduler pxgstrf_scheduler.c (one file for all precisions; pthread build: no DOMAINS, no PROFILE)
+SCHED_SH = "pxgstrf_shared"
+# (path, gallina binder, kind, read-only, guarded by SCHED_LOCK)
+SCHED_MEM = [
+    ("etree[]",                          "etr",          "array", True,  False),
+    (SCHED_SH + ".pan_status[].state",   "pan_state",    "array", False, True),
+    (SCHED_SH + ".pan_status[].size",    "pan_size",     "array", True,  False),
+    (SCHED_SH + ".pan_status[].ukids",   "pan_ukids",    "array", False, True),
+    (SCHED_SH + ".fb_cols[]",            "fb_cols",      "array", False, True),
+    (SCHED_SH + ".taskq.queue[]",        "queue",        "array", False, True),
+    (SCHED_SH + ".taskq.head",           "head",         "cell",  False, True),
+    (SCHED_SH + ".taskq.tail",           "tail",         "cell",  False, True),
+    (SCHED_SH + ".taskq.count",          "count",        "cell",  False, True),
+    (SCHED_SH + ".tasks_remain",         "tasks_remain", "cell",  False, True),
+    (SCHED_SH + ".spin_locks[]",         "spin_locks",   "array", False, True),
+]
 
 
-def gen_alloc():
-    cfile = os.path.join(SRC, "pmemory.c")
-    cellb = ["glu_" + f for f in ALLOC_CELLS]
-    out = ["(* GENERATED on every run by tools/gen_trans.py (translator tools/c2gal.py, clang AST, pthread build, WITHOUT -DSLU_MT_VERIF)",
-           "   from Glu_alloc / DynamicSetMap of %s (one file for all precisions) -- do not edit." % cfile,
-           "   gen_Glu_alloc pnum jcol num mem_type prev0 glu_map %s" % " ".join(cellb),
-           "     = Returned (returned value, *prev_next, map_in_sup, (%s))  |  Aborted" % ", ".join(ALLOC_CELLS),
-           "   prev0 = *prev_next on entry; glu_map = the array pxgstrf_shared->Glu->map_in_sup as a function Z -> Z (a store is C2GalLib.zupd);",
-           "   the glu_* are the int_t fields of *pxgstrf_shared->Glu on entry; the components of the result are the values on return.",
-           "   Aborted = the path ends in a call that never returns (%s: the SUPERLU_ABORT of XPAND_HINT);" % ", ".join(sorted(ALLOC_ABORT)),
-           "   calls of %s are dropped (their arguments have no side effect: checked).  int_t arithmetic is arithmetic in Z." % ", ".join(sorted(ALLOC_IGNORE)),
-           "   Lock discipline, checked by the translator: %s is only touched while pxgstrf_shared->lu_locks[<its lock>] is held"
-           % ", ".join("%s [%s]" % (f, l) for f, l in sorted(ALLOC_GUARDS.items())),
-           "   (pthread_mutex_lock / pthread_mutex_unlock), no lock is taken while one is held, every return happens with no lock held. *)",
-           "Require Import ZArith List Bool.", "From SLU Require Import C2GalLib.", "Local Open Scope Z_scope.", "Local Open Scope bool_scope.", ""]
+def gen_sched():
+    gname = "gen_pxgstrf_scheduler"
+    out = ["(* GENERATED on every run by tools/gen_trans.py (translator tools/c2gal.py, clang AST, pthread build, built WITHOUT -DSLU_MT_VERIF,",
+           "   no DOMAINS, no PROFILE) from pxgstrf_scheduler of %s/pxgstrf_scheduler.c -- do not edit." % SRC,
+           "   %s n etr pan_state pan_size pan_ukids fb_cols queue head tail count tasks_remain spin_locks cur_pan bcol fuel:" % gname,
+           "     n = the argument n; etr = etree[]; pan_state / pan_size / pan_ukids = the fields state / size / ukids of",
+           "     pxgstrf_shared->pan_status[]; fb_cols, spin_locks = pxgstrf_shared->fb_cols[], ->spin_locks[]; queue, head, tail, count = the",
+           "     fields of pxgstrf_shared->taskq; tasks_remain = pxgstrf_shared->tasks_remain; cur_pan, bcol = *cur_pan, *bcol on entry.",
+           "   Arrays are lists read with nthZ and written with updZ (SchedModel.v: total, default 0 / no effect out of range); int_t",
+           "   arithmetic is arithmetic in Z; the enum pipe_state_t is compared as an integer.  Distinct arrays / fields do not overlap.",
+           "   Result: None when a while loop ran out of fuel, else Some (pan_state, pan_ukids, fb_cols, queue, head, tail, count,",
+           "   tasks_remain, spin_locks, *cur_pan, *bcol) at the return.  Checked by the translator: every access to the mutable shared",
+           "   state (everything but etree[] and pan_status[].size, which the routine never writes) happens between",
+           "   pthread_mutex_lock and pthread_mutex_unlock of &pxgstrf_shared->lu_locks[SCHED_LOCK], and the lock is released at the return. *)",
+           "Require Import ZArith List Bool.", "From SLU Require Import Consts C2GalLib SchedModel.", "Local Open Scope Z_scope.", "Local Open Scope bool_scope.", ""]
     ok = 0
-    enums = {}
+    cfile = os.path.join(SRC, "pxgstrf_scheduler.c")
     try:
-        vals = c2gal.int_constants(cfile, ALLOC_MEMTYPES, incdir=SRC)
-        out.append("(* the values of the enumeration MemType as pmemory.c sees them *)")
-        for x in ALLOC_MEMTYPES:
-            out.append("Definition gen_%s : Z := %d." % (x, vals[x]))
-            enums[x] = "gen_%s" % x
-        out.append("")
+        fn = c2gal.load_function(cfile, "pxgstrf_scheduler", incdir=SRC)
+        pnames = [c.get("name") for c in fn.get("inner", []) if c.get("kind") == "ParmVarDecl"]
+        if pnames != ["pnum", "n", "etree", "cur_pan", "bcol", SCHED_SH]:
+            raise Unsupported("unexpected parameter list %s" % pnames)
+        mem = {p: (g, kind, ro) for (p, g, kind, ro, _) in SCHED_MEM}
+        inputs = {p: (g, "L" if kind == "array" else "Z") for (p, g, kind, ro, _) in SCHED_MEM}
+        inputs.update({"n": ("n", "Z"), "pnum": ("pnum", "Z"), "*cur_pan": ("cur_pan", "Z"), "*bcol": ("bcol", "Z")})
+        outs = [p for (p, g, kind, ro, _) in SCHED_MEM if not ro] + ["*cur_pan", "*bcol"]
+        params = [("n", "Z")] + [(g, "list Z" if kind == "array" else "Z") for (p, g, kind, ro, _) in SCHED_MEM] + \
+                 [("cur_pan", "Z"), ("bcol", "Z"), ("fuel", "nat")]
+
+        def result(tr, env):
+            if "#lock" in env:
+                raise Unsupported("the routine returns while the lock is held")
+            return "Some (%s)" % ", ".join(tr.toZ(env[o]) if env[o][1] != "L" else env[o][0] for o in outs)
+
+        def on_return(tr, env, val):
+            if val is not None:
+                raise Unsupported("the routine returns a value")
+            return result(tr, env)
+        cfg = {"inputs": inputs, "cells": {"cur_pan", "bcol"}, "pointers": {SCHED_SH: SCHED_SH, "etree": "etree"}, "mem": mem,
+               "ignore_calls": set(), "on_return": on_return, "on_fuel": lambda tr, env: "None", "fuel": "fuel",
+               "lift_loops": gname, "dedupe_loops": True, "known_tests": True, "partial_init": "dup", "params": params,
+               "state_order": c2gal.decl_order(fn) + [p for (p, _, _, _, _) in SCHED_MEM],
+               "lock": {"acquire": {"pthread_mutex_lock"}, "release": {"pthread_mutex_unlock"}, "object": None,
+                        "object_path": (SCHED_SH + ".lu_locks", "SCHED_LOCK"),
+                        "guards": {p for (p, _, _, _, g) in SCHED_MEM if g}}}
+        tr_holder = []
+
+        def final(tr, env):
+            return result(tr, env)
+        body = [c for c in fn["inner"] if c.get("kind") == "CompoundStmt"][0]
+        tr = c2gal.Tr(cfg)
+        tr.number(body)
+        term = tr.seq(body.get("inner", []), dict(inputs), lambda e: final(tr, e))
+        out.append("(* %s : pxgstrf_scheduler *)" % os.path.basename(cfile))
+        for l in tr.lifted:
+            out.append("(* state %s; outer names %s *)" % (", ".join(l[2]), ", ".join(l[3])))
+            out.append(l[1])
+        rty = " * ".join("list Z" if (o in mem and mem[o][1] == "array") else "Z" for o in outs)
+        out.append("Definition %s %s : option (%s) :=\n%s.\n" % (gname, " ".join("(%s : %s)" % b for b in params), rty, term))
+        ok += 1
     except Unsupported as e:
-        out.append("(* gen_LUSUP .. gen_USUB NOT TRANSLATED: %s *)\n" % str(e).replace("*)", "* )"))
-    for fname, has_prev in (("Glu_alloc", True), ("DynamicSetMap", False)):
-        gname = "gen_" + fname
-        try:
-            fn = c2gal.load_function(cfile, fname, incdir=SRC)
-            params = [c for c in fn.get("inner", []) if c.get("kind") == "ParmVarDecl"]
-            if any("name" not in c for c in params):
-                raise Unsupported("%s has an unnamed parameter" % fname)
-            ty = lambda c: c["type"].get("desugaredQualType", c["type"]["qualType"]).strip()
-            roots = [c["name"] for c in params if c["type"]["qualType"].replace(" ", "") == "pxgstrf_shared_t*"]
-            ints = [c["name"] for c in params if ty(c) in ALLOC_INT]
-            outp = [c["name"] for c in params if ty(c).replace(" ", "") in ("int*", "long*", "longlong*", "int_t*")]
-            if len(roots) != 1 or len(outp) != (1 if has_prev else 0) or len(roots) + len(ints) + len(outp) != len(params):
-                raise Unsupported("%s: parameters are not integers, %sone pxgstrf_shared_t *" % (fname, "one int_t *, " if has_prev else ""))
-            glu = roots[0] + "->Glu"
-            cellp = ["%s->%s" % (glu, f) for f in ALLOC_CELLS]
-            mapp = "%s->%s" % (glu, ALLOC_MAP)
-            inputs = {cp: (b, "Z") for cp, b in zip(cellp, cellb)}
-            inputs[mapp] = ("glu_map", "F")
-            for nm in ints:
-                if nm.startswith("glu_") or nm.startswith("gen_") or nm == "prev0":
-                    raise Unsupported("parameter name %s clashes with the generated binders" % nm)
-                inputs[nm] = (c2gal.gallina_ident(nm), "Z")
-            for nm in outp:
-                inputs["*" + nm] = ("prev0", "Z")
-
-            def result(tr, env, val, fname=fname, outp=outp, mapp=mapp, cellp=cellp):
-                if tr.held(env):
-                    raise Unsupported("%s returns while a lock is held (%s)" % (fname, ", ".join(tr.held(env))))
-                if val is None or val[1] not in ("Z", "B"):
-                    raise Unsupported("%s returns no integer value" % fname)
-                comps = [tr.toZ(val)] + [env["*" + nm][0] for nm in outp] + [env[mapp][0], "(%s)" % ", ".join(env[cp][0] for cp in cellp)]
-                return "Returned (%s)" % ", ".join(comps)
-
-            def final(tr, env, fname=fname):
-                raise Unsupported("%s can reach its end without a return" % fname)
-            cfg = {"inputs": inputs, "cells": set(outp), "roots": set(roots), "pcells": set(cellp), "parrays": {mapp},
-                   "enums": enums, "dup_ifs": True, "on_return": result, "on_abort": lambda tr, env: "Aborted",
-                   "ignore_calls": ALLOC_IGNORE, "abort_calls": ALLOC_ABORT,
-                   "lock": {"acquire": {"pthread_mutex_lock"}, "release": {"pthread_mutex_unlock"}, "object_path": roots[0] + "->lu_locks",
-                            "guards": {"%s->%s" % (glu, f): l for f, l in ALLOC_GUARDS.items()}}}
-            term = c2gal.translate_slice(fn, cfg, final=final)
-            rty = "Z * Z * (Z -> Z)" if has_prev else "Z * (Z -> Z)"
-            out.append("(* %s : %s *)" % (os.path.basename(cfile), fname))
-            out.append("Definition %s (%s : Z)%s (glu_map : Z -> Z) (%s : Z)\n  : outcome (%s * (%s)) :=\n%s.\n"
-                       % (gname, " ".join(c2gal.gallina_ident(nm) for nm in ints), " (prev0 : Z)" if has_prev else "", " ".join(cellb),
-                          rty, " * ".join("Z" for _ in cellb), term))
-            ok += 1
-        except Unsupported as e:
-            out.append("(* %s NOT TRANSLATED: %s *)\n" % (gname, str(e).replace("*)", "* )")))
-    write_if_changed(os.path.join(COQ, "AllocGen.v"), "\n".join(out) + "\n")
+        out.append("(* %s NOT TRANSLATED: %s *)\n" % (gname, str(e).replace("*)", "* )")))
+    write_if_changed(os.path.join(COQ, "SchedGen.v"), "\n".join(out) + "\n")
     return ok
 
 
 if __name__ == "__main__":
-    n = gen_argcheck()
-    print("gen_trans: ArgCheckGen.v %d/28 routines translated" % n)
-    n = gen_pivot()
-    print("gen_trans: PivotGen.v %d/4 routines translated" % n)
-    n = gen_ustack()
-    print("gen_trans: UstackGen.v %d/8 functions translated" % n)
-    n = gen_alloc()
-    print("gen_trans: AllocGen.v %d/2 functions translated" % n)
-    import gen_trans_sched      # the scheduler part: own extension of the translator (tools/c2gal_sched.py)
-    n = gen_trans_sched.gen_sched()
-    print("gen_trans: SchedGen.v %s/1 functions translated" % n)
+    n = gen_sched()
+    print("gen_trans: SchedGen.v %s" % n)
